@@ -87,7 +87,7 @@ let parse_snap t : (string * string) list =
     | None -> (e, "")) (String.split_on_char ';' body)
 
 (* the property on one data set: durable log, verdict per prefix, (completion position, id hex, snapshot) per flush *)
-let spec_check ?(any_pos = false) (log : dop list) (verdicts : string list) (flushes : (int * string * (string * string) list) list) =
+let spec_check ?(any_pos = false) ?(expected = (fun (_ : int) -> (None : string option))) (log : dop list) (verdicts : string list) (flushes : (int * string * (string * string) list) list) =
   let why = ref "" in
   let ok = ref true in
   let fail s = if !ok then (ok := false; why := s) in
@@ -96,7 +96,12 @@ let spec_check ?(any_pos = false) (log : dop list) (verdicts : string list) (flu
     if !ok then begin
       let w = crash log (nat_of_int k) in
       let dbs = List.map (fun (n, c) -> (name_tok n, dump_db c)) w in
-      if v = "N" then begin
+      (match expected k with
+       | Some e when v = "N" || (String.length v > 2 && String.sub v 0 2 = "O:" && String.sub v 2 (String.length v - 2) <> e) ->
+         fail (Printf.sprintf "crash point %d: Initialize with expected flush ID %s reports %s" k e v)
+       | _ -> ());
+      if expected k <> None && dbs = [] then ()
+      else if v = "N" then begin
         if List.exists (fun (_, d) -> d <> "") dbs then
           fail (Printf.sprintf "crash point %d: reports no flush but a surviving database is not empty" k)
       end else if String.length v > 2 && String.sub v 0 2 = "O:" then begin
@@ -116,7 +121,7 @@ let spec_check ?(any_pos = false) (log : dop list) (verdicts : string list) (flu
   (* the other direction: a crash right after a completed flush is reported as that flush *)
   let va = Array.of_list verdicts in
   List.iter (fun (pos, id, _) ->
-    if !ok && pos < Array.length va && crash log (nat_of_int pos) <> [] then begin
+    if !ok && expected 0 = None && pos < Array.length va && crash log (nat_of_int pos) <> [] then begin
       let want = "O:00" ^ (if id = "-" then "" else id) in
       if va.(pos) <> want then
         fail (Printf.sprintf "crash point %d = right after flush %s returned: verdict %s, expected %s" pos id va.(pos) want)
@@ -131,7 +136,7 @@ let eval inp obs =
   let og = split_on ";" obs in
   let sect name = (match List.find_opt (fun g -> match g with x :: _ -> x = name | [] -> false) og with
     | Some (_ :: t) -> t | _ -> []) in
-  let ilog = sect "LOG" and iverd = sect "V" and isnaps = sect "S" and ipres = sect "Q" in
+  let ilog = sect "LOG" and iverd = sect "V" and isnaps = sect "S" and ipres = sect "Q" and ixverd = sect "X" in
   (* flush segments of the implementation's log *)
   let segs = ref [] and cur = ref None in
   List.iter (fun t ->
@@ -168,6 +173,10 @@ let eval inp obs =
   let flush_ids = List.filter_map (fun o -> match o with ["F"; id] -> Some id | _ -> None) ops in
   (* flagged producer with two equal consecutive flush IDs: the reported flush may be the one in
      progress (theorem C25_flagged_crash_consistent_any_ids); otherwise it completed at or before k *)
+  let nfl = List.length flush_ids in
+  let expected_hex k =
+    let j = k mod (nfl + 1) in
+    if j < nfl then "00" ^ (let id = List.nth flush_ids j in if id = "-" then "" else id) else "00eeee" in
   let rec consec_distinct = function a :: (b :: _ as t) -> a <> b && consec_distinct t | _ -> true in
   let any_pos = (mode = "flag") && not (consec_distinct flush_ids) in
   let mlog, mrecs =
@@ -211,9 +220,21 @@ let eval inp obs =
     if it = canon || List.length w > 6 then canon
     else if List.exists (fun p -> cres_tok (check_synced fk p) = it) (perms w) then it else canon) in
   let mverd_sorted = List.rev !mverd_sorted in
+  let ixverd_a = Array.of_list ixverd in
+  let mxverd_sorted = ref [] in
+  let mxverd = List.init (nlog + 1) (fun k ->
+    let w = crash mlog (nat_of_int k) in
+    let w = List.sort (fun (a, _) (b, _) -> Z.compare (z_of_n a) (z_of_n b)) w in
+    let f = Some (bytes_of_hex (expected_hex k)) in
+    let canon = cres_tok (check_loop fk w f false) in
+    mxverd_sorted := canon :: !mxverd_sorted;
+    let it = if k < Array.length ixverd_a then ixverd_a.(k) else "" in
+    if it = canon || List.length w > 6 then canon
+    else if List.exists (fun p -> cres_tok (check_loop fk p f false) = it) (perms w) then it else canon) in
+  let mxverd_sorted = List.rev !mxverd_sorted in
   let msnaps = List.map (fun r -> snap_tok r.r_snap) mrecs in
   let mpres = List.rev !mpres in
-  let model_obs = ("LOG" :: List.rev !mlog_toks) @ [";"; "V"] @ mverd @ [";"; "S"] @ msnaps @ [";"; "Q"] @ mpres @ [";"; "R1"] in
+  let model_obs = ("LOG" :: List.rev !mlog_toks) @ [";"; "V"] @ mverd @ [";"; "S"] @ msnaps @ [";"; "Q"] @ mpres @ [";"; "X"] @ mxverd @ [";"; "R1"] in
   (* ---- the property on the implementation's data *)
   let idur = List.filter (fun t -> t <> "F" && t <> "f" && t <> "ferr") ilog in
   let spec_ok, why = (try
@@ -241,13 +262,19 @@ let eval inp obs =
                    (i + 1) id (String.concat ";" (List.map (fun (n, d) -> n ^ "=" ^ d) post))
                    (String.concat ";" (List.map (fun (n, d) -> n ^ "=" ^ d) exp));
         (p, id, exp)) pos in
-      if !bad <> "" then false, !bad else spec_check ~any_pos ilog_d iverd flushes
+      if !bad <> "" then false, !bad else begin
+        let r1 = spec_check ~any_pos ilog_d iverd flushes in
+        if not (fst r1) then r1
+        else spec_check ~any_pos ~expected:(fun k -> Some (expected_hex k)) ilog_d ixverd flushes
+      end
     end
   with e -> false, "unparsable observation: " ^ Printexc.to_string e) in
   let m_ok, m_why =
     let flushes = List.mapi (fun i r -> (int_of_nat r.r_pos, (if r.r_id = [] then "-" else h r.r_id),
                                          parse_snap (List.nth msnaps i))) mrecs in
-    spec_check ~any_pos mlog mverd_sorted flushes in
+    let r1 = spec_check ~any_pos mlog mverd_sorted flushes in
+    if not (fst r1) then r1
+    else spec_check ~any_pos ~expected:(fun k -> Some (expected_hex k)) mlog mxverd_sorted flushes in
   let has p = List.exists p iverd in
   { default_verdict with model_obs; spec_ok = Some spec_ok; model_spec_ok = m_ok;
     nontrivial = has (fun v -> String.length v > 1 && v.[0] = 'O') && has (fun v -> v.[0] = 'E');
